@@ -82,7 +82,8 @@ def _smap_positions(smap):
 
 
 def validate(spec: ModelSpec, c: tv.Compiled, tally: decide.Tally, vectorized: bool, twin=True, cvc5=False,
-             delayed_factory=None, ext_inputs=None, t_sym=None, extra_state=None, run_symbolic=None):
+             delayed_factory=None, ext_inputs=None, t_sym=None, extra_state=None, run_symbolic=None,
+             extra_table=None, extra_assumptions=(), label=''):
     """Returns dict(violations=[...], inconclusive=[...], diagnostics=[...], obligations=[...])."""
     res = dict(violations=[], inconclusive=[], diagnostics=[], obligations=[])
     syms = Symbols(spec)
@@ -142,7 +143,10 @@ def validate(spec: ModelSpec, c: tv.Compiled, tally: decide.Tally, vectorized: b
     # (b) symbolic run -------------------------------------------------------------------
     y_sym = symx.symarray('y', ny)
     y_names = [f"y_{j}" for j in range(ny)]
-    binding = tv.Binding(syms.table)
+    table = dict(syms.table)
+    if extra_table:
+        table.update(extra_table)
+    binding = tv.Binding(table)
     symx.Ctx.cur = symx.Ctx()
     try:
         if run_symbolic is not None:
@@ -166,7 +170,7 @@ def validate(spec: ModelSpec, c: tv.Compiled, tally: decide.Tally, vectorized: b
             res['inconclusive'].append(dict(kind='engine', what=f"symbolic run raised {type(e).__name__}: {e}",
                                             tb=traceback.format_exc()[-600:]))
         return res
-    pc = list(symx.Ctx.cur.pc)
+    pc = list(symx.Ctx.cur.pc) + list(extra_assumptions)
     symx.Ctx.cur = None
     out = np.asarray(out, dtype=object).reshape(-1)
     if out.shape[0] != ny:
@@ -213,7 +217,7 @@ def validate(spec: ModelSpec, c: tv.Compiled, tally: decide.Tally, vectorized: b
             continue
         gen = out[pos[sv][0]]
         v, model = decide.prove_equal(gen, ref, pc=pc, tally=tally)
-        ob = dict(var='/'.join(sv), verdict=v)
+        ob = dict(var='/'.join(sv) + label, verdict=v)
         if v == 'unsat' and cvc5:
             cv = decide.cvc5_cross(gen, ref, pc=pc)
             tally.cvc5_checked += 1
@@ -239,7 +243,8 @@ def validate(spec: ModelSpec, c: tv.Compiled, tally: decide.Tally, vectorized: b
                            ref_term=str(z3.simplify(symx.lift(ref)))[:400])
                 # replay on the real compiled function (float64)
                 try:
-                    fargs = tv.float_args(c, env, binding, y_names, t_value=env.get('t', 0.0))
+                    tval = t_sym if isinstance(t_sym, (int, np.integer)) else env.get('t', 0.0)
+                    fargs = tv.float_args(c, env, binding, y_names, t_value=tval)
                     real = np.asarray(_to_numpy(c.func(*fargs)), dtype=float).reshape(-1)[pos[sv][0]]
                     rec['real_value'] = float(real)
                     ok = abs(real - rv_) > 1e-7 * max(1.0, abs(real), abs(rv_))
